@@ -41,7 +41,7 @@ static size_t ref_der(const struct tval *v, uint8_t *out, size_t cap) {
     if(v->n >= 1) der_int_tagged(&b, CL_UNIV, 2, e0);
     if(v->n >= 2) der_int_tagged(&b, CL_UNIV, 2, e1);
     struct rbuf o = { out, 0, cap };
-    der_tag(&o, CL_UNIV | CONSTRUCTED, 17); der_len(&o, b.n); rb_puts(&o, body, b.n);
+    x_constructed(&o, CL_UNIV, 17, body, b.n);
     return o.n;
 }
 /* canonical PER: X.691 22 refers to ordering of set-of element encodings (ascending, as bit strings padded with 0) */
@@ -65,3 +65,12 @@ static size_t ref_oer(const struct tval *v, uint8_t *out, size_t cap) {
 }
 static int tv_wf(const struct tval *v) { return v->n <= 2; }
 #define tv_wellformed tv_wf
+
+/* ---- C06: SET OF elements stored in a different order ---- */
+#define TV_HAS_ALT 1
+struct talt { uint8_t swap; };
+static int talt_valid(const struct talt *a) { return a->swap <= 1; }
+static void tv_build_alt(const struct tval *v, const struct talt *a, TYPE_T *o, struct tv_store *s) {
+    tv_build(v, o, s);
+    if(a->swap && v->n == 2) { long *t = s->p[0]; s->p[0] = s->p[1]; s->p[1] = t; }
+}
